@@ -27,6 +27,14 @@ CutRow(s) ==
                  header   |-> RunCut(s, kk-1, "header", FlateP),
                  payload  |-> RunCut(s, kk-1, "payload", FlateP)]]]
 C04Rows == SetToSeq({ CutRow(s) : s \in CutStreams })
+(* oracle sanity (checked by TLC when the rows are generated): cutting later never loses a  *)
+(* message that an earlier cut would have delivered, and a cut stream never yields more     *)
+(* messages than the whole stream.                                                           *)
+MsgsOf(r) == SelectSeq(r.reader, LAMBDA x : x.o = "msg")
+CutMonotone ==
+  \A s \in CutStreams : \A k \in 0..Len(s) : \A w \in {"boundary", "header", "payload"} :
+     /\ IsPrefix(RunCut(s, k, w, FlateP).msgs, MsgsOf(Run(s, FlateP)))
+     /\ (k > 0 => IsPrefix(RunCut(s, k-1, w, FlateP).msgs, RunCut(s, k, w, FlateP).msgs))
 
 ---------------------------------------------------------------------------
 (* C08: limits x message sizes x fragmentations x compression *)
@@ -60,10 +68,22 @@ C08Pairs ==
 C08PairsOK == { r \in C08Pairs : r.prog[1].exp.o = "deliver" }
 C08Rows == SetToSeq(C08SingleOK \cup C08PairsOK)
 
+(* memory clause: what a frame header declares, or how well a payload compresses, must not  *)
+(* decide how much is allocated; only what is actually handed over may                       *)
+C08Declared ==
+  { [kind |-> "declared", declared |-> d, actual |-> a, limit |-> L,
+     exp |-> [o |-> "fail", maxHanded |-> IF L < 0 THEN a ELSE Min2(a, L + 1)]] :
+      d \in {"2p31", "2p40", "2p63m1"}, a \in {0, 10, 5000}, L \in {-1, 125, 32768} }
+C08Bombs ==
+  { [kind |-> "bomb", size |-> sz, limit |-> L, exp |-> LimitOutcome(L, sz)] :
+      sz \in {1048576, 8388608}, L \in {-1, 0, 125, 32768} }
+C08AllocRows == SetToSeq(C08Declared \cup C08Bombs)
+
 LettersSeq == SetToSeq(Letters)
 
 ASSUME Mode = "c03" => /\ PrintT(<<"rows", Len(C03Rows)>>) /\ ndJsonSerialize(Out, C03Rows)
-ASSUME Mode = "c04" => /\ PrintT(<<"rows", Len(C04Rows)>>) /\ ndJsonSerialize(Out, C04Rows)
+ASSUME Mode = "c04" => /\ CutMonotone /\ PrintT(<<"rows", Len(C04Rows)>>) /\ ndJsonSerialize(Out, C04Rows)
 ASSUME Mode = "c08" => /\ PrintT(<<"rows", Len(C08Rows)>>) /\ ndJsonSerialize(Out, C08Rows)
+ASSUME Mode = "c08alloc" => /\ PrintT(<<"rows", Len(C08AllocRows)>>) /\ ndJsonSerialize(Out, C08AllocRows)
 ASSUME Mode = "letters" => ndJsonSerialize(Out, LettersSeq)
 =============================================================================
